@@ -787,6 +787,9 @@ class HeapExec(DynExec):
             r = None if is_all else self._any_over_slice(gen.data[0], st)
             if r is not None:
                 return r
+            r = self._allany_concrete(is_all, gen.data[0], st)
+            if r is not None:
+                return r
             return [(st, SBool(fresh('all' if is_all else 'any', z3.BoolSort())))]
         if isinstance(gen, tuple):
             parts = [self.truth(x, st) for x in gen]
